@@ -15,7 +15,10 @@ RULE = ("(A) Mech.tla: storage objects with an immutable flag, object->storage p
         "(string-cache hits), from user-held bytearray/bitarray/array/memoryview buffers; derivations by constructor, bits=, "
         ".bits, copy, slices, + and radd with literals, & | ^ with self, *, join, pack with bits tokens, Dtype('bits').build/"
         "parse, shifts, ~, read, cut; mutations of either side by every mutator incl. prepend/append of pool literals onto empty "
-        "targets, .bits assignment; tobitarray() then mutation of the returned bitarray; mutation of the source buffer. After "
+        "targets, .bits assignment; tobitarray() then mutation of the returned bitarray; mutation of the source buffer. (C2) the "
+        "repository's own tests under the external tracer (harness/tracer_plugin.py): every outermost public call they make is "
+        "judged by the validator for 'immutable objects never change' and 'at most the target changes' over all objects the test "
+        "holds. After "
         "every call TLC re-checks the value of every live object (frame), so any sharing shows at the mutating event.")
 
 CONTROLS = ['no_setbits_copy', 'no_fromstring_copy', 'no_tobitarray_copy', 'no_cachekey_options', 'no_ctor_copy']
@@ -46,10 +49,15 @@ def mech(chk, thorough):
 def run(chk):
     thorough = chk.tier == 'thorough'
     rng = random.Random(chk.seed * 41 + 4)
+    from harness import exttrace
+    ext_pool = ThreadPoolExecutor(max_workers=1)
+    ext = ext_pool.submit(exttrace.run, chk, thorough)
     chk.queue([isoprogs.isolation_program(rng) for _ in range(12000 if thorough else 3000)], 'random-isolation')
     chk.queue([isoprogs.isolation_program(rng, lsb0=True) for _ in range(3000 if thorough else 600)], 'random-isolation-lsb0')
     chk.queue([isoprogs.derive_then_mutate_program(rng, lsb0=(i % 5 == 4)) for i in range(4000 if thorough else 1000)], 'derive-then-mutate')
     mech(chk, thorough)
     chk.flush()
+    ext.result()
+    ext_pool.shutdown()
     return chk.finish(rule=RULE, assumptions=ASSUME + [
         'identity of returned objects is observed with `is` against the live objects of the program'])
